@@ -89,7 +89,7 @@ def _other_link_mid_frame(n=2):
     del _OTHER_LINKS[:-2]
 
 
-def build_system(n, vw=8, sw=8):
+def build_system(n, vw=8, sw=8, freq=None):
     from py4hw.logic.protocol.uart.serdes import UARTSerializer, UARTDeserializer
     from py4hw.logic.protocol.uart.clock import ClockGenerationAndRecovery
     with core.quiet():
@@ -100,7 +100,8 @@ def build_system(n, vw=8, sw=8):
     c.s_ready, c.s_valid, c.s_v = W('s_ready'), W('s_valid'), W('s_v', sw)     # sw > 8: the low byte of a wider bus is sent
     c.tx, c.txp, c.rxs, c.desync = W('tx'), W('tx_clk_pulse'), W('rx_sample'), W('desync')
     c.d_ready, c.d_valid, c.d_v = W('d_ready'), W('d_valid'), W('d_v', vw)      # vw > 8: the byte arrives on a wider data bus
-    ClockGenerationAndRecovery(hw, 'cgr', c.tx, c.desync, c.txp, c.rxs, 2 * n, 1)
+    fs, fu = freq if freq else (2 * n, 1)       # system / line frequency; the half bit period is int(fs / (2 fu)) = n clocks
+    ClockGenerationAndRecovery(hw, 'cgr', c.tx, c.desync, c.txp, c.rxs, fs, fu)
     UARTSerializer(hw, 'ser', c.s_ready, c.s_valid, c.s_v, c.txp, c.tx)
     UARTDeserializer(hw, 'des', c.tx, c.rxs, c.d_ready, c.d_valid, c.d_v, c.desync)
     c.free = [c.s_valid, c.s_v, c.d_ready]
@@ -132,6 +133,11 @@ def shards(tier):
             for rdy in (1, 2):
                 out.append({'family': 'directed', 'n': n, 'alphabet': [0x41, 0x00, 0xFF, 0x5A], 'gap_frames': gap, 'ready_every': rdy,
                             'S_bit_periods': 0, 'S': 0})
+    # the ratio given by real frequencies (not as (ratio, 1)), odd ratios and a non-integer ratio: both dividers round the same
+    # way, the half bit period is int(fs / (2 fu)) clocks
+    for fs, fu in ((1843200, 115200), (153600, 9600), (32, 2), (5, 1), (7, 1), (9, 1), (11, 1), (33, 1), (50E6, 115200 * 16), (100, 18)):
+        out.append({'family': 'directed', 'n': int(fs / (2 * fu)), 'freq': [fs, fu], 'alphabet': [0x41, 0x00, 0xFF, 0x5A],
+                    'gap_frames': 0, 'ready_every': 1, 'S_bit_periods': 0, 'S': 0})
     # the byte taken from / delivered on data buses wider than 8 bits (upper bits of the offered word set)
     for n in (2, 5):
         out.append({'family': 'directed', 'n': n, 'alphabet': [0x1241, 0xFF00, 0x0180, 0xA55A], 'gap_frames': 0, 'ready_every': 1,
@@ -195,7 +201,7 @@ def make_build(d):
     n = d['n']
 
     def build():
-        c = build_system(n, d.get('vw', 8), d.get('sw', 8))
+        c = build_system(n, d.get('vw', 8), d.get('sw', 8), d.get('freq'))
         c.ms = ref.mon_init()
         # path bookkeeping, carried with each state but NOT part of the dedup key (it describes the BFS-tree path by which the
         # state was first reached, i.e. exactly the trace reported for a violation): (cycle, ready edges so far, ready of
@@ -389,8 +395,18 @@ def run_trace(d, trace, keep=40):
 def run_directed(d):
     """closed-loop producer (offers the next byte as soon as the previous one was accepted and the gap has passed) and a
     periodic consumer; the input sequence it produces is then judged by run_trace like any other trace"""
-    with core.quiet():
-        c = make_build(d)()
+    try:
+        with core.quiet():
+            c = make_build(d)()
+    except core.HarnessError:
+        raise
+    except Exception as e:
+        # every clock ratio of at least 4 is admissible: a link that cannot be built delivers nothing
+        core.reset_prepared()
+        return {'configs': 1, 'states': 0, 'transitions': 0, 'traces_validated_against_impl': 0, 'evaluations': 0,
+                'distinct_nontrivial': 0, 'distinct_outcomes': 2, 'vacuous_ok': True, 'samples': [{'shard': d}],
+                'violations': [{'sig': 'C17:n=%d:link_cannot_be_built' % d['n'], 'shard': d, 'trace': [],
+                                'detail': {'clause': 'link_cannot_be_built', 'raised': repr(e)[:200], 'directed': True}}]}
     n, todo = d['n'], list(d['alphabet'])
     frame = FRAME_CYCLES(n)
     trace, wait, cyc = [], 0, 0
